@@ -68,6 +68,7 @@ func cmdBtCrash(args []string) {
 		rep.Extra["boundary_images"] += len(p.Ops)
 		rep.Extra["mid_request_images"] += len(mids)
 		rep.Extra["restarts"] += len(p.Restarts)
+		rep.Extra["kills_inside_requests_continued_from"] += len(p.KilledAt)
 		rep.Evaluations += len(p.Ops) + len(mids)
 		for _, op := range p.Ops {
 			rep.OpKinds[op.Kind]++
@@ -80,9 +81,13 @@ func cmdBtCrash(args []string) {
 		stride := 1 + nd
 		dumpOf := func(k int) []string { // Model's dump after op k (k = -1: nothing exists yet)
 			if k < 0 {
-				d := []string{"names", "names"}
-				for range bt.DumpOps()[2:] {
-					d = append(d, "err notfound")
+				var d []string
+				for _, op := range bt.DumpOps() {
+					if op.Kind == "list" {
+						d = append(d, "names 0")
+					} else {
+						d = append(d, "err notfound")
+					}
 				}
 				return d
 			}
@@ -101,6 +106,13 @@ func cmdBtCrash(args []string) {
 				}
 			}
 			q.Restarts = rs
+			var ks []bt.Kill
+			for _, k := range p.Kills {
+				if k.Op <= upto {
+					ks = append(ks, k)
+				}
+			}
+			q.Kills = ks
 			qj, _ := json.Marshal(&q)
 			var ops []string
 			for _, op := range q.Ops {
